@@ -205,10 +205,45 @@ impl Case {
             argv.push(fams[l][next[l]].clone());
             next[l] += 1;
         }
+        // every spelling clap accepts for an option: `--name=value`, `--name value`, `-c value`, `-cvalue`, `-c=value`, `-u`, and a
+        // flag letter leading a cluster (`-uc value`) — chosen per argument from the shuffle key; the model of the command line
+        // (`Args.lexAll`) is handed the same vector
+        const SHORTS: &[(&str, char)] = &[("choose", 'c'), ("select", 'c'), ("filter", 'f'), ("where", 'f'), ("break-by", 'b'), ("split-by", 'b'),
+            ("group-by", 'g'), ("combine", 'g'), ("merge", 'g'), ("sort-by", 's'), ("order-by", 's'), ("skip", 'k'), ("take", 't'), ("limit", 't'),
+            ("unique", 'u'), ("set", 'e'), ("output-style", 'o'), ("row-seperator", 'r')];
+        let is_value = |v: &str| !v.starts_with('-') || v == "-";
+        for i in 1..argv.len() {
+            let a = argv[i].clone();
+            if !a.starts_with("--") || a.contains('\u{1}') {
+                continue;
+            }
+            let pick = r.below(12);
+            let (name, value) = match a[2..].split_once('=') {
+                Some((n, v)) => (n.to_string(), Some(v.to_string())),
+                None => (a[2..].to_string(), None),
+            };
+            let short = SHORTS.iter().find(|(n, _)| *n == name).map(|(_, c)| *c);
+            argv[i] = match (pick, short, value) {
+                (6, _, Some(v)) if is_value(&v) => format!("--{name}\u{1}{v}"),
+                (7, Some(c), Some(v)) if is_value(&v) => format!("-{c}\u{1}{v}"),
+                (8, Some(c), Some(v)) if !v.is_empty() && !v.starts_with('=') => format!("-{c}{v}"),
+                (9, Some(c), Some(v)) => format!("-{c}={v}"),
+                (6..=9, Some(c), None) => format!("-{c}"),
+                _ => a,
+            };
+        }
+        let mut i = 1;
+        while i + 1 < argv.len() {
+            if argv[i] == "-u" && argv[i + 1].starts_with('-') && !argv[i + 1].starts_with("--") && argv[i + 1].len() > 1 && r.chance(60) {
+                let tail = argv.remove(i + 1);
+                argv[i] = format!("-u{}", &tail[1..]);
+            }
+            i += 1;
+        }
         // clap hands a BARE optional-valued option (`--merge`, `--group-by`, `--combine` without `=`) the argument after it
         // as its value unless that looks like an option: `--merge in0.json` would group by the text of the path.  That is the
         // documented command line, not an ordering the property speaks about: keep input files in front of such an option.
-        let bare = |a: &str| a == "--merge" || a == "--group-by" || a == "--combine";
+        let bare = |a: &str| a == "--merge" || a == "--group-by" || a == "--combine" || a == "-g" || a == "-ug";
         let mut i = 0;
         while i + 1 < argv.len() {
             if bare(&argv[i]) && !argv[i + 1].starts_with('-') {
